@@ -22,11 +22,9 @@ def fmStep (toks : List String) : Option String :=
       let ds : List Digest := parsed.map (fun (h, sz, _, _) => { hash := if h == "E" then emptySha256 else h, size := sz })
       let idx : Index := fun h => (parsed.find? (fun (h', _, _, _) => h' == h)).bind (fun (_, _, l, _) =>
         if l ≥ 0 then some l else none)
-      -- back-end answer per digest: "0" absent, "1" present reporting the stated size, "u" size unknown,
-      -- "m" another size, "b" a size above max_proxy_blob_size
+      -- back-end answer per digest: "-" absent, otherwise the size it reports (-1: it cannot tell)
       let has : Digest → Option Int := fun d => (parsed.find? (fun (h', _, _, _) => h' == d.hash)).bind (fun (_, _, _, p) =>
-        if p == "1" then some d.size else if p == "u" then some (-1) else if p == "m" then some (d.size + 1)
-        else if p == "b" then some (maxp + 1) else none)
+        if p == "-" then none else parseInt? p)
       let proxy : Proxy := if px then some has else none
       let missing := findMissing batch (fun _ => idx) proxy maxp ds
       some ("missing=" ++ showList (missing.map (fun d => if d.hash == emptySha256 then "E" else d.hash)) ++
